@@ -142,6 +142,9 @@ func init() {
 	scenario(".(*FieldRangeVisitor).VisitNotCriteria#post.ranges", ".", "clover_replay_test.go", "TestVerifReplayPlannerDoubleNot")
 	scenario(".unaryCriteriaToRange#post.cover", ".", "clover_replay_test.go", "TestVerifReplayPlannerFieldOperand")
 	scenario(".(*DB).IterateDocs#iterateDocs.norm", ".", "clover_replay_test.go", "TestVerifReplayIterateDocsRaw")
+	scenario("/store/bbolt.(*boltCursor).Seek", "store/bbolt", "bbolt_replay_test.go", "TestVerifReplayBoltCursor")
+	scenario("/store/bbolt.(*boltCursor).Valid", "store/bbolt", "bbolt_replay_test.go", "TestVerifReplayBoltCursor")
+	scenario("/store/bbolt.(*boltCursor).Next", "store/bbolt", "bbolt_replay_test.go", "TestVerifReplayBoltCursor")
 	scenario(".(*DB).DeleteById#size-accounts", ".", "clover_replay_test.go", "TestVerifReplayDeleteAbsent")
 	imp := &replayFamily{pkgDir: ".", testFile: "clover_replay_test.go", testName: "TestVerifReplayImport",
 		build: func(r *Result, vals map[string]string) (interface{}, bool) { return "fixed scenario", true }}
